@@ -3,6 +3,7 @@ package corerad
 // C16 — deprecated prefixes and routes count down to zero at a fixed deadline.
 
 import (
+	"encoding/json"
 	"fmt"
 	"sort"
 	"strings"
@@ -144,6 +145,27 @@ func c16Gen(rng *verifsim.RNG, idx int, tier string) *Plan {
 		for i, k := 0, rng.Range(1, 3); i < k; i++ {
 			p.Actions = append(p.Actions, Action{At: int64(rng.Dur(0, time.Duration(horizon))) + jitter(rng), Kind: "addrs", If: "eth0", Addrs: pickAddrs(rng, iw.LL, 5)})
 		}
+	}
+	if rng.Bool(0.12) {
+		// the interface is not there when the daemon starts: the debug API is
+		// asked for its RA meanwhile, around the deadlines too - what it shows of
+		// a deprecated stanza is the time remaining then, not the configured value
+		p.Class += "+asked-before-up"
+		p.Nodes[0].Ifaces[0].Down = true
+		p.Nodes[0].Config.Debug = &DebugSpec{Address: "127.0.0.1:9430"}
+		up := horizon - nsSec
+		p.Actions = append(p.Actions, Action{At: up, Kind: "ifup", If: "eth0"})
+		for i, k := 0, rng.Range(2, 6); i < k; i++ {
+			at := int64(rng.Dur(0, time.Duration(up)))
+			if len(deadlines) > 0 && rng.Bool(0.5) {
+				at = int64(deadlines[rng.Intn(len(deadlines))]) + []int64{-nsSec, -1, 1, nsSec, 5 * nsSec}[rng.Intn(5)]
+			}
+			if at > 0 && at < up {
+				p.Actions = append(p.Actions, Action{At: at + jitter(rng), Kind: "http", Path: "/_/api/interfaces"})
+			}
+		}
+		p.Horizon = horizon + 2*nsSec
+		return p
 	}
 	maybeReinit(rng, p, "eth0", 500*nsMs, horizon, 0.25)
 	p.Horizon = horizon
@@ -337,6 +359,48 @@ func c16Oracle(info *runInfo, res *verifsim.Result) {
 		}
 		c16Check(res, info, w.ra, *in, fmt.Sprintf("RA #%d to %s at %s", w.seq, w.dst, ms(w.t)), last, lastT)
 		n++
+	}
+	// what the debug API shows of an interface that has never been initialised
+	acts := map[int]*verifsim.Event{}
+	for i := range info.ev {
+		e := &info.ev[i]
+		switch e.K {
+		case "act.http":
+			acts[e.Seq] = e
+		case "http.exit":
+			a := acts[e.Ref]
+			if a == nil || a.S != "/_/api/interfaces" || e.Err != "" || e.V != 200 {
+				continue
+			}
+			never := true
+			for _, g := range h.gens {
+				if g.dialSeq < e.Seq {
+					never = false
+				}
+			}
+			if !never {
+				continue
+			}
+			var body apiFull
+			if json.Unmarshal(e.B, &body) != nil {
+				continue
+			}
+			for _, bi := range body.Interfaces {
+				var ra apiRA
+				if bi.Interface != spec.Name || json.Unmarshal(bi.Advertisement, &ra) != nil {
+					continue
+				}
+				m := expectRA(modelIn{spec: spec, fwd: true, uninit: true, epoch: info.epochs[0], t1: a.T, t2: e.T})
+				if m.fail != "" || len(m.unrep) > 0 {
+					continue
+				}
+				res.Probe("api_before_first_initialisation")
+				n++
+				for _, d := range apiOptionDiffs(m, &ra) {
+					res.Violate("C16.value", "api:"+d[0], "debug API at %s, %s never initialised: %s", ms(a.T), spec.Name, d[1])
+				}
+			}
+		}
 	}
 	res.Nontrivial = n >= 2
 }
